@@ -12,6 +12,13 @@ import (
 	"golang.org/x/tools/go/ssa"
 )
 
+// externalRedirect maps assembly routines to the pure-Go implementation in the same package.
+var externalRedirect = map[string]string{
+	"crypto/sha256.block": "blockGeneric",
+	"crypto/md5.block":    "blockGeneric",
+	"crypto/sha1.block":   "blockGeneric",
+}
+
 type Sched struct{}
 
 func (s *Sched) clone() *Sched { c := *s; return &c }
@@ -107,6 +114,7 @@ func (ex *Exec) decide(st *State, c *Term) bool {
 	if c.IsConst() {
 		return c.c == 1
 	}
+	st.symDecisions++
 	if v, ok := st.decided[c.id]; ok {
 		return v
 	}
@@ -425,7 +433,15 @@ func (ex *Exec) jump(st *State, f *Frame, to *ssa.BasicBlock) {
 		if f.backEdges == nil {
 			f.backEdges = map[int]int{}
 		}
-		f.backEdges[to.Index]++
+		// only iterations that involved a symbolic decision since the previous visit count towards the bound:
+		// loops with concrete trip counts are simply executed
+		if f.backSym == nil {
+			f.backSym = map[int]int{}
+		}
+		if last, seen := f.backSym[to.Index]; !seen || last != st.symDecisions {
+			f.backEdges[to.Index]++
+		}
+		f.backSym[to.Index] = st.symDecisions
 		if f.backEdges[to.Index] > ex.cfg.Unwind {
 			panic(cutPath{fmt.Sprintf("unwinding bound %d exceeded in %s", ex.cfg.Unwind, f.fn)})
 		}
@@ -472,8 +488,14 @@ func (ex *Exec) resolveCall(st *State, f *Frame, c *ssa.CallCommon, instr ssa.In
 			ex.raiseRuntime(st, "nil", "invalid memory address or nil pointer dereference (nil interface method call)", instr)
 			panic(retryStep{})
 		}
-		if st, ok := ifc.V.(stubRecv); ok {
-			_ = st
+		if rt, ok := ifc.V.(RType); ok {
+			for _, a := range c.Args {
+				args = append(args, ex.get(f, a))
+			}
+			return FuncV{Native: "rtype." + c.Method.Name(), Recv: rt}, args
+		}
+		if ifc.T == runtimeErrorType {
+			return FuncV{Native: "runtimeError." + c.Method.Name(), Recv: ifc.V}, nil
 		}
 		m := ex.lookupMethod(ifc.T, c.Method)
 		if m == nil {
@@ -539,6 +561,12 @@ func (ex *Exec) call(st *State, fn FuncV, args []Value, retTo ssa.Value, instr s
 		}
 	}
 	if fn.Fn.Blocks == nil {
+		if alt, ok := externalRedirect[name]; ok && fn.Fn.Pkg != nil {
+			if g := fn.Fn.Pkg.Func(alt); g != nil && g.Blocks != nil {
+				ex.call(st, FuncV{Fn: g}, args, retTo, instr)
+				return
+			}
+		}
 		// external function without body (assembly / linkname)
 		res := ex.external(st, fn.Fn, args, instr)
 		if retTo != nil {
@@ -578,7 +606,7 @@ func (ex *Exec) doReturn(st *State, res Value) {
 	}
 	caller := st.top()
 	if f.nativeRet != "" {
-		ex.nativeContinue(st, caller, f.nativeRet, res)
+		ex.nativeContinue(st, caller, f, res)
 		return
 	}
 	if f.isDefer {
